@@ -87,3 +87,16 @@ impl<I: Interner> Solver<I> for SLGSolver<I> {
         }
     }
 }
+
+/// Verification hook (add-only; compiled only with `--cfg chalk_verif`): the stored answers of the
+/// table of `goal`, if the forest has one.
+#[cfg(chalk_verif)]
+impl<I: Interner> SLGSolver<I> {
+    pub fn verif_table_dump(
+        &self,
+        goal: &UCanonical<InEnvironment<Goal<I>>>,
+    ) -> Option<(bool, Vec<(Canonical<chalk_ir::AnswerSubst<I>>, bool, bool)>)> {
+        let index = self.forest.tables.index_of(goal)?;
+        Some(self.forest.tables[index].verif_dump())
+    }
+}
